@@ -30,6 +30,7 @@ func execBufConc(t *trace, script []string) {
 			continue
 		}
 		producers, consumers, ops, cleanerKind, cooldown, seed := atoi(f[1]), atoi(f[2]), atoi(f[3]), atoi(f[4]), atoi(f[5]), atoi(f[6])
+		tight := seed%4 == 0
 		t.Line(line, "ok")
 		b := new(bigbuff.Buffer)
 		log := &evlog.Log{}
@@ -153,8 +154,14 @@ func execBufConc(t *trace, script []string) {
 			wg.Add(1)
 			go func() {
 				defer wg.Done()
-				for k := 0; k < ops*2; k++ {
-					switch r.Pick(60, 18, 12, 10) {
+				// in every fourth run the threads of a shared consumer hammer it (no pauses, three times the operations): the windows
+				// inside Commit / Rollback / Get of ONE consumer used by two goroutines are a few instructions wide
+				n, weights := ops*2, []int{60, 18, 12, 10}
+				if tight {
+					n, weights = ops*6, []int{55, 30, 15, 0}
+				}
+				for k := 0; k < n; k++ {
+					switch r.Pick(weights...) {
 					case 0:
 						ctx, cancel := context.WithTimeout(context.Background(), time.Duration(200+r.Intn(800))*time.Microsecond)
 						v, err := c.Get(ctx)
